@@ -85,7 +85,30 @@ def field_alias(v, s, k, trace=None):
         sp += cases(ln)
     if trace is not None:
         trace.append('%s %s child %s spellings %r' % (v, s, name, sp))
-    return _same_child(seg, name, sp, seg.to_er7(), trace)
+    if not _same_child(seg, name, sp, seg.to_er7(), trace):
+        return False
+    # a field of base datatype has one component, named after the datatype: any letter case and the positional path reach it
+    dt = T.child_datatype(ch[k])
+    if dt in T.LIBS[v].BASE_DATATYPES and dt not in ('WD',):
+        f = Field(name, version=v, validation_level=2)
+        sp2 = cases(dt) + cases('%s_1' % name)
+        if trace is not None:
+            trace.append('%s Field %s (base datatype %s) component spellings %r' % (v, name, dt, sp2))
+        val = {'DT': '2020', 'DTM': '2020', 'TM': '12', 'NM': '1', 'SI': '1', 'TN': '555-1234'}.get(dt, 'W')
+        for wi, s1 in enumerate(sp2):
+            setattr(f, s1, val)
+            for s2 in sp2:
+                got = getattr(f, s2)
+                if len(got) != 1 or got[0].to_er7() != val:
+                    if trace is not None:
+                        trace.append('written through %r, read through %r -> %r' % (s1, s2, [g.to_er7() for g in got]))
+                    return False
+            delattr(f, sp2[(wi + 1) % len(sp2)])
+            if len(f.children) != 0:
+                if trace is not None:
+                    trace.append('delete through %r left %r' % (sp2[(wi + 1) % len(sp2)], f.children))
+                return False
+    return True
 
 
 def comp_alias(v, d, j, k, trace=None):
@@ -181,7 +204,37 @@ def neg_row(v, s, k, trace=None):
                     trace.append('%s %s: %s of %r raised %s: %s' % (v, s, op, b, type(e).__name__, e))
                 return False
     after = (seg.to_er7(), len(seg.children), dict(seg.children.traversal_indexes))
-    return before == after
+    if before != after:
+        return False
+    # the same at field level: positional paths that belong to ANOTHER field of the segment designate nothing here
+    f = Field(name, version=v, validation_level=2)
+    if f.datatype == 'varies' or s == 'MSH':
+        return True
+    fb = (f.to_er7(), len(f.children))
+    others = sorted({n * 10, n * 10 + 3, n + 1, n + 10, int('1%d' % n)} - {n})
+    for j in others:
+        for path in ('%s_%d_1' % (s, j), '%s_%d_1_1' % (s, j), '%s_%d_2' % (s.lower(), j)):
+            for op in ('get', 'set', 'del'):
+                try:
+                    if op == 'get':
+                        r = getattr(f, path)
+                        if trace is not None:
+                            trace.append('%s Field %s: read of foreign path %r returned %r' % (v, name, path, r))
+                        return False
+                    elif op == 'set':
+                        setattr(f, path, 'X')
+                    else:
+                        delattr(f, path)
+                    if trace is not None:
+                        trace.append('%s Field %s: %s through foreign path %r did not raise' % (v, name, op, path))
+                    return False
+                except (ChildNotFound, ChildNotValid):
+                    pass
+                except Exception as e:
+                    if trace is not None:
+                        trace.append('%s Field %s: %s of %r raised %s: %s' % (v, name, op, path, type(e).__name__, e))
+                    return False
+    return fb == (f.to_er7(), len(f.children))
 
 
 SUB_ROWS = [r for r in COMP_ROWS if r[3] >= 0]
